@@ -42,10 +42,11 @@ Fixpoint c09_walk (p : pend) (h : list dsignal) (obs : list (list dcmd)) : bool 
   | _, _ => false
   end.
 
-(* domain: readings with roll, pitch strictly inside (-90, 90) degrees (see DESIGN section 7) *)
+(* domain: readings with roll strictly inside (-180, 180) and pitch strictly inside (-90, 90) degrees, where the Euler
+   extraction returns the angles that went in (see DESIGN section 7) *)
 Definition c09_wf (h : list dsignal) : bool :=
   forallb (fun s => match s with
-                    | SRotator r => (-9000 <? rr_roll r) && (rr_roll r <? 9000) && (-9000 <? rr_pitch r) && (rr_pitch r <? 9000)
+                    | SRotator r => (-18000 <? rr_roll r) && (rr_roll r <? 18000) && (-9000 <? rr_pitch r) && (rr_pitch r <? 9000)
                     | SEngine rpm => (0 <=? rpm) && (rpm <? 65536)
                     | SOther => true end) h.
 
